@@ -619,6 +619,12 @@ func (r *actxRun) inline(fn *types.Func, st *actxState, g *types.Func, c *ast.Ca
 				}
 				if l, ok := r.localOf(st, a); ok {
 					sub.locals[obj] = l
+				} else if aid, isId := ast.Unparen(a).(*ast.Ident); isId {
+					// a pointer to a save local (or a nil pointer) handed on: `leave(previous)` with
+					// `if previous != nil { restore(*previous) }` in the callee
+					if pl, tracked := st.locals[m.info.Uses[aid]]; tracked && (pl.kind == alPtr || pl.kind == alNil) {
+						sub.locals[obj] = pl
+					}
 				}
 			}
 			i++
@@ -781,6 +787,10 @@ func (r *actxRun) stmt(fn *types.Func, st *actxState, s ast.Stmt) {
 			}
 			f, ptr := m.fieldOf(l)
 			if f == nil || m.ctx[f] == nil || !ptr {
+				continue
+			}
+			if k, ok := m.stepAssign(x, i); ok {
+				r.write(st, f, k, nil, x.Pos())
 				continue
 			}
 			if x.Tok != token.ASSIGN || len(x.Rhs) != len(x.Lhs) {
